@@ -142,7 +142,16 @@ fn on_callback(e: &Expect, target_shape: &[usize], xb: u64, yb: u64) -> Decision
         if target_shape != &e.trailing[..] {
             ctx.log.violations.push(format!("interp_into: target shape {:?} != data shape minus interpolated axes {:?}", target_shape, e.trailing));
         }
-        if !ctx.query.iter().any(|&(qx, qy)| qx == xb && qy == yb) {
+        let mut hit = false;
+        for (i, &(qx, qy)) in ctx.query.iter().enumerate() {
+            if qx == xb && qy == yb {
+                hit = true;
+                if i < 64 {
+                    ctx.log.received |= 1u64 << i;
+                }
+            }
+        }
+        if !hit {
             ctx.log.violations.push(format!("interp_into: received ({xb:#018x},{yb:#018x}) which is not an element (pair) of the query"));
         }
         let act = ctx.plan.get(k).cloned().unwrap_or(Act::Ok);
